@@ -133,6 +133,8 @@ class C10(Prop):
             "seg": gen.segmentation(),
             # an earlier connection in this process (same WebSocket object or another) and how it ended
             "prelude": gen.prelude(),
+            # a second live connection in the same process (interleaved with this one, or blocked in a send)
+            "companion": gen.companion(),
         })
 
     def enumerations(self, tier):
